@@ -3662,6 +3662,11 @@ static Token *function(Token *tok, Type *basety, VarAttr *attr) {
       error_tok(tok, "static declaration follows a non-static declaration");
     fn->is_definition = fn->is_definition || equal(tok, "{");
 
+    // The composite type takes the parameter list from the declaration
+    // that has one (C11 6.2.7p3).
+    if (!fn->ty->params && fn->ty->is_variadic)
+      fn->ty = ty;
+
     // A function is an inline definition - which we treat like a static
     // one - only if all its file-scope declarations say 'inline' and
     // none says 'extern' (C11 6.7.4p7). Any other declaration makes it
